@@ -66,7 +66,12 @@ def bytes_to_blocks(
     # args
     found_varnames = ToArgs(varnames, {i: i for i in range(len(args.parameters))})
     found_cellvars = ToArgs(cellvars)
-    found_constants = ToArgs(constants)
+    found_constants = ToArgs(
+        constants,
+        _hash_fn=constant_key,
+        # See from_arg for when the encoder puts a None in front of the constants
+        _prepend_none=isinstance(block_type, Function) and block_type.docstring is None,
+    )
 
     # If we have a function block and a docstring, the first constant is the docstring.
     if isinstance(block_type, Function) and block_type.docstring is not None:
@@ -372,12 +377,40 @@ class ToArgs(Generic[T]):
     # Mapping of the actual index argument to the position it was
     # found
     _index_to_order: dict[int, int] = field(default_factory=dict)
+    _hash_fn: Callable[[T], Hashable] = field(default=hash)
+    # Whether the encoder will add a None before a first arg which is a string
+    _prepend_none: bool = field(default=False)
+    # The table the encoder (FromArgs) will have built from the args found so far,
+    # so that we only override an index if the encoder would choose another one.
+    _index_to_hash: dict[int, Hashable] = field(default_factory=dict)
+    _hash_to_index: dict[Hashable, int] = field(default_factory=dict)
+
+    def __post_init__(self) -> None:
+        for index in self._index_to_order:
+            self._encode(index, self._hash_fn(self._args[index]))
+
+    def _encode(self, index: int, hash_: Hashable) -> None:
+        self._index_to_hash[index] = hash_
+        self._hash_to_index[hash_] = index
 
     def found_index(self, index: int) -> tuple[T, Optional[int]]:
+        arg = self._args[index]
         if index not in self._index_to_order:
-            self._index_to_order[index] = len(self._args)
-        wrong_position = self._index_to_order[index] != index
-        return self._args[index], index if wrong_position else None
+            self._index_to_order[index] = len(self._index_to_order)
+        wrong_position = False
+        if self._prepend_none and not self._index_to_hash and isinstance(arg, str):
+            if index == 1 and self._args[0] is None:
+                # The encoder will add the None itself and then use this position
+                self._encode(0, self._hash_fn(self._args[0]))
+            else:
+                # Keep the position so that the encoder does not add the None
+                wrong_position = True
+        hash_ = self._hash_fn(arg)
+        # The index the encoder would use if we don't override it
+        if self._hash_to_index.get(hash_, len(self._index_to_hash)) != index:
+            wrong_position = True
+        self._encode(index, hash_)
+        return arg, index if wrong_position else None
 
     def __len__(self) -> int:
         return len(self._args)
